@@ -62,6 +62,10 @@ def rule_register(ck):
         raise AnalysisError("set_exit_callback does not take exactly the callback")
     cb = params[0]
     polls = [(n, c) for n, c in fi.cfg.find(lambda x: isinstance(x, ast.Call) and q.call_attr(x) == "_try_cleanup_process")]
+    known_calls = ("initialize", "_try_cleanup_process")
+    foreign = [c for c in q.calls(fi.node) if q.call_attr(c) not in known_calls]
+    if foreign and (not polls or not any(q.call_attr(c) == "initialize" for c in q.calls(fi.node))):
+        raise AnalysisError("set_exit_callback delegates to %s: registration steps inside helpers are not followed" % q.unparse(foreign[0].func))
     ck.ob("C42.register-before-poll", fi, fi.node, len(polls) >= 1, "set_exit_callback polls the child immediately (a child that exited before registration gets no further SIGCHLD)", construct="immediate-poll")
     if not polls:
         return None
@@ -271,9 +275,27 @@ def rule_decode(ck, cb_attr):
     for (nid, c), ok in sorted(results.items()):
         what = "killed by signal %d -> returncode == %d" % (STATUS[c][1], EXPECTED[c]) if STATUS[c][0] else "exit status %d -> returncode == %d" % (STATUS[c][2], EXPECTED[c])
         ck.ob("C42.status-decoding", fi, nodes[nid].ast, ok, what, construct="%s: %s" % (c, q.unparse(nodes[nid].ast)))
+    if not fi.cfg.stmt_nodes(is_rc):
+        raise AnalysisError("_set_returncode does not assign self.returncode itself (moved into a helper?): decoding is not followed")
     covered = {c for (_nid, c) in results}
     ck.ob("C42.status-decoding", fi, fi.node, covered == set(EXPECTED), "every exit class reaches an assignment of self.returncode (covered: %s)" % ",".join(sorted(covered)), construct="classes-covered " + ",".join(sorted(covered)))
     # callback: take-and-clear, called with the decoded code, after decoding
+    decode_fi = fi
+    if not any(isinstance(x, ast.Attribute) and q.dotted(x) == cb_attr for x in q.walk_body(fi.node)):
+        # the callback part lives in a private helper called from _set_returncode: analyse it there, and require the
+        # decoding to dominate the call of that helper
+        hs = []
+        for node_, c_ in fi.cfg.find(lambda x: isinstance(x, ast.Call) and isinstance(x.func, ast.Attribute) and q.dotted(x.func.value) == "self" and ck.repo.has_func(F, CLS + "." + x.func.attr)):
+            h_ = ck.repo.func(F, CLS + "." + c_.func.attr)
+            if any(isinstance(x, ast.Attribute) and q.dotted(x) == cb_attr for x in q.walk_body(h_.node)):
+                hs.append((node_, c_, h_))
+        if len(hs) != 1 or hs[0][1].args or hs[0][1].keywords:
+            raise AnalysisError("_set_returncode neither uses %s nor calls exactly one argument-less helper that does" % cb_attr)
+        hn, hcall, fi = hs[0]
+        ck.use(fi)
+        efd = event_facts(decode_fi, {"rc": is_rc}, cond_facts=False)
+        ck.ob("C42.callback-once", decode_fi, hcall, ("@rc", True) in efd[hn.id], "the return code is decoded on every path before the callback helper runs", construct="decoded-before " + q.unparse(hcall))
+        cfg = fi.cfg
     k = check_take_and_clear(ck, "C42.callback-once", fi, cb_attr, "the exit callback is taken into a local and the attribute cleared before it is invoked (a re-entrant or repeated _set_returncode cannot run it twice)")
     ck.floor("C42.callback-once", k, 1, "uses of the exit callback")
     aliases = {p for st in own_nodes(fi.node) if isinstance(st, ast.Assign) and q.dotted(st.value) == cb_attr for p in q.assigned_paths(st)}
@@ -281,7 +303,8 @@ def rule_decode(ck, cb_attr):
     ef = event_facts(fi, {"rc": is_rc}, cond_facts=False)
     for n, c in cbcalls:
         ck.ob("C42.callback-once", fi, c, len(c.args) == 1 and q.dotted(c.args[0]) == "self.returncode" and not c.keywords, "the callback receives the decoded return code")
-        ck.ob("C42.callback-once", fi, c, ("@rc", True) in ef[n.id], "the return code is decoded on every path before the callback runs", construct="decoded-before " + q.unparse(c))
+        if fi is decode_fi:
+            ck.ob("C42.callback-once", fi, c, ("@rc", True) in ef[n.id], "the return code is decoded on every path before the callback runs", construct="decoded-before " + q.unparse(c))
     ids = {n.id for n, _c in cbcalls}
     seen2 = explore(cfg, 0, lambda n, v: min(v + (1 if n.id in ids else 0), 2), lambda t: t in (cb_attr, cb_attr + " is None"), follow_exc=False)
     for facts_, cnt in sorted(seen2.get(cfg.exit.id, ()), key=repr):
@@ -291,7 +314,7 @@ def rule_decode(ck, cb_attr):
     # the attribute is written only by registration and the clear
     for m in ck.repo.methods(F, CLS):
         for st in q.stores_to(m.node, cb_attr):
-            ok = m.name in ("__init__", "set_exit_callback", "_set_returncode")
+            ok = m.name in ("__init__", "set_exit_callback", "_set_returncode", fi.name)
             ck.ob("C42.callback-once", m, st, ok, "only __init__, set_exit_callback and the take-and-clear write %s" % cb_attr)
     # _set_returncode is only reached through the scheduled call in _try_cleanup_process
     for m in ck.repo.module(F).funcs.values():
